@@ -311,6 +311,8 @@ def _result_slices(tier):
     return out
 
 
+BUDGET = {"quick": 150, "thorough": 2400}
+
 HARNESSES = [
     Harness("percentile", percentile, "symbolic", lambda tier: [{"n": n, "_w": n} for n in range(1, 7 if tier == "quick" else 11)], reads=READS,
             bounds={"values": "n = 1..6 quick / 1..10 thorough sorted symbolic reals", "p, q": "symbolic reals in [0,100]"}, assumptions=ASSUME,
